@@ -11,6 +11,7 @@ the sum (so that a marked key and its plain twin, or `1` and `1.0`, land in
 different buckets) falsifies `hashBytes_eq_of_equivSteps`.
 -/
 import CtyModel.PathSet
+import CtyModel.Lemmas.d13Carrier
 namespace CtyModel
 namespace PathSet
 
